@@ -138,7 +138,17 @@ def check_case(p, ctx):
     import forsys.virtual_edges as fve
     tmpdir = tempfile.mkdtemp(prefix="c09_")
     try:
-        v, e, c = construct(p, tmpdir)
+        try:
+            v, e, c = construct(p, tmpdir)
+        except ForsysCrash as cr:
+            if p["source"] == "raster" and p.get("raw") and cr.kind == "IndexError" and \
+                    cr.where == "skeleton.py:create_lattice":
+                # known finding D30: the merging of interior artefact triangles pairs up consecutive entries of its
+                # candidate list and indexes an empty difference when they belong to different triangles
+                ctx.known("D30")
+                ctx.exclude_known("D30")
+                return
+            raise
         ctx.count("source:" + p["source"] + (":raw-raster" if p.get("raw") else "") + (":wild" if p.get("wild") else ""))
         probs = mesh_problems(v, e, c)
         if probs:
@@ -189,3 +199,30 @@ def run(ctx):
 
 
 CASES = {"path": check_case}
+
+
+def demo_D30():
+    """A raw (unthinned) strongly irregular raster on which the interior-triangle merging of the skeleton parser raises."""
+    import forsys as fs
+    from .. import raster
+    img = raster.make_image(131073, 6, thinning=False, wild=True)
+    if img is None:
+        return False, "demonstration image could not be generated"
+    d = tempfile.mkdtemp(prefix="c09_")
+    try:
+        fn = os.path.join(d, "s.tif")
+        raster.save(raster.apply_symmetry(img["array"], 7), fn)
+        try:
+            sk = call(fs.skeleton.Skeleton, fn)
+            call(sk.create_lattice)
+        except ForsysCrash as cr:
+            if cr.kind == "IndexError" and cr.where == "skeleton.py:create_lattice":
+                return True, "create_lattice raises IndexError (setdiff1d of two interfaces of different artefact triangles)"
+            raise
+    finally:
+        shutil.rmtree(d, ignore_errors=True)
+    return False, "the image parses"
+
+
+def demonstrators():
+    return {"D30": demo_D30}
